@@ -14,7 +14,11 @@ for pid in ids:
         try:
             subprocess.run(['rsync', '-a', '--exclude', '.git', '/repo/', d + '/'], check=True)
             stale = False
-            for e in [m] + m.get('more', []):
+            if 'patch' in m:
+                pr = subprocess.run(['patch', '-p1', '-s', '-i', os.path.join(V, m['patch'])], cwd=d, capture_output=True, text=True)
+                if pr.returncode != 0:
+                    res.append({**m, 'result': 'STALE (patch does not apply)'}); print(pid, m['name'], 'STALE'); continue
+            for e in ([m] + m.get('more', [])) if 'patch' not in m else []:
                 p = os.path.join(d, e['file'])
                 s = open(p).read()
                 if e['old'] not in s:
